@@ -16,6 +16,10 @@ What is read (ast only, nothing is imported or executed):
   * YowProtocolLayer.processIqRegistry / YowInterfaceLayer.processIqRegistry: whether the
     registry test also requires type in (result, error), and whether the entry is removed
     before or after the first callback call (statement order, try/finally flattened).
+    When the method is not written in the recognised shape (guard clauses, dict.pop, a helper
+    method ...) these two booleans are MEASURED instead: a subprocess runs the real method on a
+    bare layer object (_probe_registry).  Either way the whole table is validated by the
+    correspondence run over request/reply histories.
 Unrecognised source raises TranslateError; regenerate() then writes a stub table (nothing is
 routed) so that the model still builds, every theorem about the table fails and the
 correspondence disagrees -- tie broken.
@@ -327,6 +331,67 @@ def _late_delete(m, rel):
     return rm > cb
 
 
+_PROBE = r"""
+import sys, json
+import six, importlib.util
+_imp = six._importer; _cls = type(_imp)
+if not hasattr(_cls, 'find_spec'):
+    _cls.find_spec = lambda self, fullname, path=None, target=None: importlib.util.spec_from_loader(fullname, self) if fullname in self.known_modules else None
+    _cls.create_module = lambda self, spec: self.load_module(spec.name)
+    _cls.exec_module = lambda self, module: None
+if _imp not in sys.meta_path: sys.meta_path.append(_imp)
+from yowsup.structs import ProtocolTreeNode
+from yowsup.layers.protocol_iq.protocolentities import IqProtocolEntity
+out = {}
+def probe(make_layer, make_reply, name):
+    res = []
+    for first in ("get", "set"):
+        layer = make_layer()
+        seen = []
+        def ok(reply, orig, layer=layer, seen=seen): seen.append(("ok", "x1" in layer.iqRegistry))
+        def err(reply, orig, layer=layer, seen=seen): seen.append(("err", "x1" in layer.iqRegistry))
+        orig = IqProtocolEntity("w", _id="x1", _type="get", to="s.whatsapp.net")
+        layer.iqRegistry["x1"] = (orig, ok, err)
+        consumed = layer.processIqRegistry(make_reply("x1", first))
+        still = "x1" in layer.iqRegistry
+        if bool(consumed) == still:
+            raise SystemExit("inconsistent: consumed=%r entry still there=%r" % (consumed, still))
+        res.append(still and not seen)                      # a get/set with the id leaves the request pending
+        if still:
+            r2 = layer.processIqRegistry(make_reply("x1", "result"))
+            if not r2 or seen != [("ok", seen[0][1])] or "x1" in layer.iqRegistry:
+                raise SystemExit("result reply not dispatched exactly once to the success callback")
+    if res[0] != res[1]:
+        raise SystemExit("get and set treated differently")
+    layer = make_layer(); seen = []
+    def ok2(reply, orig): seen.append("x2" in layer.iqRegistry)
+    layer.iqRegistry["x2"] = (IqProtocolEntity("w", _id="x2", _type="get", to="s.whatsapp.net"), ok2, None)
+    if not layer.processIqRegistry(make_reply("x2", "result")) or len(seen) != 1 or "x2" in layer.iqRegistry:
+        raise SystemExit("result reply not consumed")
+    out[name] = [bool(res[0]), bool(seen[0])]
+from yowsup.layers import YowProtocolLayer
+probe(lambda: YowProtocolLayer({}), lambda i, t: ProtocolTreeNode("iq", {"id": i, "type": t, "from": "s.whatsapp.net"}), "protocol")
+from yowsup.layers.interface import YowInterfaceLayer
+probe(lambda: YowInterfaceLayer(), lambda i, t: IqProtocolEntity("w", _id=i, _type=t, _from="s.whatsapp.net"), "interface")
+print("PROBE " + json.dumps(out))
+"""
+
+
+def _probe_registry(repo):
+    """Behavioural fallback for the two facts read from processIqRegistry when its source is not in a recognised
+    shape: run the two real methods on a bare layer object and observe (a) whether a get/set iq carrying a pending
+    id leaves the request pending, (b) whether the entry is still registered while the callback runs."""
+    import subprocess, sys, json
+    env = dict(os.environ, PYTHONPATH=repo, PYTHONHASHSEED="0", PYTHONDONTWRITEBYTECODE="1")
+    p = subprocess.run([sys.executable, "-c", _PROBE], env=env, cwd=repo, stdout=subprocess.PIPE, stderr=subprocess.PIPE,
+                       text=True, timeout=120)
+    for line in p.stdout.splitlines():
+        if line.startswith("PROBE "):
+            return json.loads(line[6:])
+    raise TranslateError("processIqRegistry: source not recognised and the behavioural probe failed: %s"
+                         % (p.stderr.strip().splitlines() or [p.stdout.strip() or "no output"])[-1][:300])
+
+
 def translate(repo=None):
     repo = repo or REPO
     routes, info = {}, {"leaves": 0, "callbacks_checked": 0}
@@ -384,8 +449,19 @@ def translate(repo=None):
     if ping_leaf is None or ping_leaf[1][0] != "reg":
         raise TranslateError("the keep-alive ping is not registered by the iq layer")
     lib["LKPing"] = (ping_leaf[0], True, ping_leaf[1][2] is not None)
-    strict, late = _strict(repo, "yowsup/layers/__init__.py", "YowProtocolLayer")
-    strict_i, late_i = _strict(repo, "yowsup/layers/interface/interface.py", "YowInterfaceLayer")
+    probed = None
+    try:
+        strict, late = _strict(repo, "yowsup/layers/__init__.py", "YowProtocolLayer")
+    except TranslateError as e:
+        probed = _probe_registry(repo)
+        strict, late = probed["protocol"]
+        info["registry_flags_protocol"] = "measured by probe (source shape not recognised: %s)" % e
+    try:
+        strict_i, late_i = _strict(repo, "yowsup/layers/interface/interface.py", "YowInterfaceLayer")
+    except TranslateError as e:
+        probed = probed or _probe_registry(repo)
+        strict_i, late_i = probed["interface"]
+        info["registry_flags_interface"] = "measured by probe (source shape not recognised: %s)" % e
     info.update({"routes": {k: routes.get(k, "RNone") for k in AKINDS},
                  "lib": {k: list(v) for k, v in lib.items()}, "strict_reply": strict,
                  "strict_iface": strict_i, "late_delete": late, "late_delete_iface": late_i})
